@@ -317,7 +317,7 @@ def string_pass_visits_every_line(prog, rep, R):
                     a["k"] in ("copy", "move") and not a["place"]["p"] and norm(of.locals[a["place"]["l"]].get("closure") or "") == b2.npath for a in c.args[1:]):
                 src = canon(of, c.args[0]) if (c.callee or "").split("::")[-1] in ("for_each", "map", "filter_map", "flat_map", "fold", "try_for_each") else "%s(%s)" % ((c.callee or "").split("::")[-1], canon(of, c.args[0]))
                 rets = set(b2.return_blocks())
-                every = not b2.can_reach_avoiding(0, rets, {site.bb})
+                every = bool(rets) and all(b2.dominates(site.bb, r) for r in rets)
     if not rep.check(src is not None, R, "anchor:string-pass-driver", "the call of format_multiline_strings is not driven by an iterator over the lines"):
         return
     flat, depth = "", 0
@@ -351,14 +351,19 @@ def width_measures_agree(prog, rep, R):
     def measure_of(text):
         m = re.match(r"^(?:\w+:)?([\w:]+)\(get_content\(", text)
         return m.group(1).split("::")[-1] if m else None
-    stores = tl_content_stores(prog, of)
-    store_bbs = {bb for bb, _ in stores}
+    from util import family_bodies
+    fam = family_bodies(prog, of)
+    stores = []                  # the refresh: a store into a cached TokenLength.content, in `format`, a closure of it or a helper they call
+    for body, anchor, chain in fam:
+        for bb, v in tl_content_stores(prog, body):
+            stores.append((body.npath, bb, v))
+    store_keys = {(n_, bb) for n_, bb, _ in stores}
     for b2 in [of] + list(prog.closures_of(of.npath)):
         for bb, v in tl_content_values(prog, b2):
-            if b2 is of and (bb in store_bbs or any(v == sv for _, sv in stores)):
+            if (b2.npath, bb) in store_keys or (b2 is of and any(v == sv for n_, _, sv in stores if n_ == of.npath)):
                 continue                      # the value built for the refresh
             sites["first fill of the length cache"] = UNIT_OF.get(measure_of(v), measure_of(v)) or v[:60]
-    for bb, v in stores:
+    for n_, bb, v in stores:
         sites["refresh after the string rewrite"] = UNIT_OF.get(measure_of(v), measure_of(v)) or v[:60]
     g = prog.body(OLF + "InternalOptimisingLineFormatter::get_multiline_token_last_line_length")
     if g is not None:
@@ -600,6 +605,7 @@ def check_c06(prog, rep, tier, cfg):
     # ---------------------------------------------------------------- C06.d where the spacing rule looks at a gap that is still as in the input, a line break counts as separation
     R = "C06.d"
     n = 0
+    element_readers = set()
     for b2 in prog.bodies.values():
         if not b2.npath.startswith(TS) or b2.kind == "Closure":
             continue
@@ -614,10 +620,15 @@ def check_c06(prog, rep, tier, cfg):
                 continue
             clos = b2.locals[c.args[1]["place"]["l"]].get("closure") if c.args[1]["k"] in ("copy", "move") else None
             cb = prog.body(norm(clos)) if clos else None
+            if cb is None and c.args[1]["k"] == "const" and c.args[1].get("fn"):
+                cb = prog.body(norm(c.args[1]["fn"]))         # a nested / private fn handed over as a function item
             if cb is None or not [a for a in prog.field_accesses(FD, "spaces_before", within={cb.npath}) if a[3] in ("read", "ref")]:
                 continue
             n += 1
+            element_readers.add(cb.npath)
             ret = canon(cb, {"k": "copy", "place": {"l": 0, "p": []}})
+            if cb.kind != "Closure":
+                ret = re.sub(r"\barg1\.", "arg2.", ret)      # the element is the first parameter of a fn, the second of a closure
             raw = m.group(2).startswith("Add(") and m.group(2).endswith(",1)")
             if raw:
                 ok = "arg2.spaces_before" in ret and "arg2.newlines_before" in ret and ret.startswith("min(") and ret.endswith(",1)")
@@ -630,7 +641,7 @@ def check_c06(prog, rep, tier, cfg):
                       % (short(b2.npath), "after the token (raw gap of the next token)" if raw else "before the token", ret),
                       where="%s:%d" % (cb.file, cb.line), instance={"body": short(cb.npath), "gap": "next token (raw)" if raw else "own (decided by the previous rule)", "value": ret})
     readers_ts = sorted({a[0].npath for a in prog.field_accesses(FD, "spaces_before") if a[3] in ("read", "ref") and a[0].npath.startswith(TS)})
-    rep.check(all("max_one_either_side::{closure" in r for r in readers_ts), R, "raw-blank-count-readers", "the input's blank count is read in the spacing rule outside max_one_either_side's element closures: %s" % [short(r) for r in readers_ts],
+    rep.check(all("max_one_either_side::{closure" in r or r in element_readers for r in readers_ts), R, "raw-blank-count-readers", "the input's blank count is read in the spacing rule outside max_one_either_side's element closures: %s" % [short(r) for r in readers_ts],
               instance={"readers": [short(r) for r in readers_ts]})
     rep.floor(R, "readers of the input's blank count in the spacing rule", n, 2)
 
@@ -1383,8 +1394,24 @@ def check_c08(prog, rep, tier, cfg):
         else:
             o = Origins(b).of_operand(rv["op"]) if rv["k"] == "use" else set()
             names = {x[2] for x in o if x[0] == "call"}
-            ok = bool(o) and all((x[0] == "call" and x[2].startswith(TS)) or (x[0] == "agg" and x[3] in ("adt:core::option::Option::Some", "adt:core::option::Option::None"))
-                                 or (x[0] == "const" and x[1] == "int" and x[2] in (0, 1)) for x in o)
+
+            def from_table(body, origs, depth=0):
+                """the value comes from the spacing table functions, Some/None of such a value or a 0 / 1 constant — also through the parameter of
+                a private helper of the spacing module (`set_spaces_before(tokens, index, value)`), judged at each of its call sites"""
+                if not origs:
+                    return False
+                for x in origs:
+                    if (x[0] == "call" and x[2].startswith(TS)) or (x[0] == "agg" and x[3] in ("adt:core::option::Option::Some", "adt:core::option::Option::None")) \
+                            or (x[0] == "const" and x[1] == "int" and x[2] in (0, 1)):
+                        continue
+                    if x[0] == "param" and depth < 2 and body.npath.startswith(TS) and body.kind != "Closure":
+                        sites = [c for c in prog.who_calls(body.npath) if c.body.crate.startswith("pasfmt")]
+                        if sites and all(c.body.npath.startswith(TS) or c.body.npath.startswith("<" + TS) for c in sites) and \
+                                all(len(c.args) >= x[1] and from_table(c.body, Origins(c.body).of_operand(c.args[x[1] - 1]), depth + 1) for c in sites):
+                            continue
+                    return False
+                return True
+            ok = from_table(b, o)
             rep.check(ok, R, "spaces-value:%s:table" % short(b.npath).split("::")[-1], "spaces_before is set from %s (allowed: results of the spacing table functions)" % sorted(map(str, o)),
                       instance={"body": short(b.npath), "value_from": sorted(short(x) for x in names)})
     rep.floor(R, "stores to spaces_before", n, 5)
@@ -1806,21 +1833,28 @@ def check_c09(prog, rep, tier, cfg):
     TL = OLF + "TokenLength"
     if rep.check(of is not None, R, "anchor:OLF::format", "OptimisingLineFormatter::format not found"):
         from panic import dominating_conditions
-        fms = of.calls_to(OLF + "multiline_strings::StringFormatter::format_multiline_strings")
-        makers = [bb for bb, i, s in of.stmts() if s["k"] == "assign" and s["rv"]["k"] == "aggregate" and norm(s["rv"].get("adt", "")) == TL]
-        mk_cl = [b2 for b2 in prog.closures_of(of.npath) if any(s["k"] == "assign" and s["rv"]["k"] == "aggregate" and norm(s["rv"].get("adt", "")) == TL for _, _, s in b2.stmts())]
+        from util import family_calls, family_bodies
+        FMS = OLF + "multiline_strings::StringFormatter::format_multiline_strings"
+        fms = family_calls(prog, of, lambda c: (c.callee or "") == FMS)
         fls = wrapping_calls(prog, of)
-        stores = tl_content_stores(prog, of)
         mk_cl = [b2 for b2 in prog.closures_of(of.npath) if tl_content_values(prog, b2)]
+        # the refresh: a store into a cached TokenLength.content in `format`, in a closure of it or in a helper they call
+        fam = family_bodies(prog, of)
+        stores = []
+        for body, anchor, chain in fam:
+            for bb, val in tl_content_stores(prog, body):
+                stores.append((body, bb, val, anchor, chain))
         ok = len(fms) == 1 and len(fls) == 2 and len(mk_cl) == 1
         good = False
         if ok:
-            for bb, val in stores:
-                conds = dominating_conditions(of, bb)
-                after_rewrite = any(c[0] == "call" and c[1].endswith("format_multiline_strings") and c[3] is True for c in conds)
+            for body, bb, val, anchor, chain in stores:
+                # behind `format_multiline_strings(..) == true`: at the store itself or at one of the calls that lead down to it
+                levels = [(body, bb)] + [(b3, c3.bb) for b3, c3 in chain]
+                after_rewrite = any(any(c[0] == "call" and c[1].endswith("format_multiline_strings") and c[3] is True for c in dominating_conditions(b3, bb3)) for b3, bb3 in levels)
                 from_content = "len(get_content(" in val and "get_token(" in val
-                in_token_loop = any(bb in L and any((c.callee or "").endswith("Iterator::next") and "get_tokens(" in canon(of, c.args[0]) for c in of.calls() if c.bb in L) for L in of.loops().values())
-                reflow = [f for f in fls if of.can_reach_avoiding(bb, {f.bb}, set()) and not of.can_reach_avoiding(f.bb, {bb}, set())]
+                in_token_loop = any(bb in L and any((c.callee or "").endswith("Iterator::next") and "get_tokens(" in canon(body, c.args[0]) for c in body.calls() if c.bb in L) for L in body.loops().values())
+                at = bb if anchor is None else anchor
+                reflow = [f for f in fls if of.can_reach_avoiding(at, {f.bb}, set()) and not of.can_reach_avoiding(f.bb, {at}, set())]
                 if after_rewrite and from_content and in_token_loop and reflow:
                     good = True
         rep.check(ok and good, R, "lengths-refreshed-after-string-rewrite",
@@ -2262,19 +2296,21 @@ def check_c11(prog, rep, tier, cfg):
     R = "C11.d"
     of = prog.body(OLF_FMT)
     if rep.check(of is not None, R, "anchor:OLF::format", "OptimisingLineFormatter::format not found"):
-        ms = of.calls_to(OLF + "multiline_strings::StringFormatter::format_multiline_strings")
+        from util import family_calls
+        # where the string pass happens in `format`: the call itself, or the block that hands over the closure / calls the helper it is made in
+        ms = sorted({a for a, _ in family_calls(prog, of, lambda c: (c.callee or "") == OLF + "multiline_strings::StringFormatter::format_multiline_strings")})
         fls = wrapping_calls(prog, of)
         # memo fields of the wrapper: whatever its methods reach through RefCell::borrow / borrow_mut
         memo_fields = sorted({canon(b2, c.args[0]).split(".")[-1] for b2 in prog.bodies.values() if b2.npath.startswith(OLF + "InternalOptimisingLineFormatter::")
                               for c in b2.calls() if (c.callee or "") in ("core::cell::RefCell::borrow", "core::cell::RefCell::borrow_mut")})
         rep.check(bool(memo_fields), R, "anchor:memo-fields", "no RefCell-held memo found in InternalOptimisingLineFormatter (the rule's structural basis is gone)", instance={"memo_fields": memo_fields})
         if rep.check(len(ms) == 1 and len(fls) >= 2, R, "anchor:rewrite-then-reflow", "string rewrite followed by a second wrapping pass not found (rewrites %d, format_line calls %d)" % (len(ms), len(fls))):
-            m = ms[0]
-            later = [f for f in fls if f.bb in of.reach_from(m.bb) and m.bb not in of.reach_from(f.bb)]
+            m_bb = ms[0]
+            later = [f for f in fls if f.bb in of.reach_from(m_bb) and m_bb not in of.reach_from(f.bb)]
             clears = [c for c in of.calls() if (c.callee or "").endswith("HashMap::clear") and any(mf in canon(of, c.args[0]) for mf in memo_fields)]
             rep.note("memo fields of the wrapper: %s" % memo_fields)
             for f in later:
-                stale = of.can_reach_avoiding(m.bb, {f.bb}, {c.bb for c in clears})
+                stale = of.can_reach_avoiding(m_bb, {f.bb}, {c.bb for c in clears})
                 rep.check(not stale, R, "stale-memo:" + ",".join(memo_fields),
                           "the child-line solutions memoised during the first wrapping pass (%s) are still in place when lines are wrapped again after their multi-line strings were rewritten: "
                           "child lines are then laid out from measurements of the old text, so a line that fits at a narrower wrap_column can exceed a wider one" % ", ".join(memo_fields),
